@@ -124,6 +124,25 @@ def check(run):
             run.violation('R12', 'search-covers-buffer', orr.norm, orr.loc(c),
                           'the search for the blank line starts at %s with length %s instead of covering every byte received so far: a terminator that straddles two reads (cut 1-3 bytes before the end of the header) is never found, that request is never answered and - one connection at a time - nobody else is served' % (q.render(orr, c['args'][0]), q.render(orr, c['args'][1])))
 
+    run.clause('a well-formed range gets its response: no number is parsed from a substring that may be empty (\"bytes=900-\", \"bytes=-100\") - std::stoll(\"\") throws and the request is answered with a closed connection')
+    nparse = 0
+    for f_ in [g_ for g_ in fx.repo_functions() if g_.file.endswith('http_server.cpp') and g_.cfg is not None]:
+        for c in f_.calls():
+            if (q.callee_name(c) or '').split('<')[0] not in ('std::stoll', 'std::stoi', 'std::stol', 'std::stoull', 'std::stoul'):
+                continue
+            nparse += 1
+            run.touch(f_)
+            a0 = q.strip_casts(c['args'][0]) if c.get('args') else None
+            txt = q.render(f_, a0)
+            guarded = any(q.render(f_, q.strip_casts(at_)).replace('this->', '') == txt + '.empty()' and not p_ for at_, p_ in q.guards_at(f_, c))
+            sub = is_node(a0) and any(x_['k'] == 'call' and (q.callee_name(x_) or '').split('::')[-1] == 'substr' for x_ in walk(a0))
+            if is_node(a0) and a0['k'] == 'ref' and a0.get('dk') == 'local':
+                sub = any(any(x_['k'] == 'call' and (q.callee_name(x_) or '').split('::')[-1] == 'substr' for x_ in walk(d_)) for _s, d_ in q.local_defs(f_, a0['did']))
+            run.check(guarded or not sub, 'R5', 'parse-of-nonempty', '%s: %s' % (q.top_function(fx, f_).norm[:60], q.render(f_, c)[:50]), f_.loc(c),
+                      'a number is parsed from %s, a piece cut out of a header value that is empty for well-formed input (an open-ended or suffix byte range), without a dominating emptiness test: the conversion throws, on_read() catches it and closes the connection without a response' % txt[:40],
+                      'parsed only under !%s.empty()' % txt[:30])
+    if nparse < 2:
+        run.broke('fewer than 2 numeric conversions found in http_server.cpp (the range parser used two)')
     run.clause('the connection never goes idle unnoticed: every path through on_read that does not close the connection leaves an operation pending on it (a read, the response write, or a posted re-entry of on_read) - otherwise the client\'s end-of-file is never seen, the connection is never closed and the next client is never accepted')
     busy = [c for c in orr.calls() if q.callee_name(c) in (H + '::read', H + '::close_connection') or (q.callee_name(c) or '').split('<')[0].endswith('async_write') or (q.callee_name(c) or '').split('<')[0].endswith('async_read_some')]
     busy += [n for (d, fn_, n) in handlers.bound_member_functions(fx).get(orr.usr, []) if fn_.usr == orr.usr and d == 'post']
